@@ -211,28 +211,41 @@ fn check_doc(case: &Case, doc: &str) -> Result<bool, String> {
             return Err(format!("canvas background is {v:?}, the configured default background is {:?}", rgb_of(case.bg, pal)));
         }
     }
-    let text = root.elements().find(|e| e.name == "text").ok_or("no <text> element")?;
-    let container = resolve(text.attr("class").unwrap_or(""), &sheet)?;
-    let default_fill = container.fill.ok_or("the text container has no fill")?;
-    if default_fill != rgb_of(case.fg, pal) {
-        return Err(format!("default fill is {:?}, the configured default foreground is {:?}", default_fill, rgb_of(case.fg, pal)));
+    // one <text> element, or several layers of them (e.g. all background rows painted first): the
+    // rows of a line are those with the same y, in document order - the last one carries the text
+    let texts: Vec<&Element> = root.elements().filter(|e| e.name == "text").collect();
+    if texts.is_empty() {
+        return Err("no <text> element".into());
     }
-    if !text.own_text().trim().is_empty() {
-        return Err(format!("stray text directly inside <text>: {:?}", text.own_text().trim()));
+    let mut default_fill = None;
+    let mut rows: Vec<&Element> = vec![];
+    for text in &texts {
+        let container = resolve(text.attr("class").unwrap_or(""), &sheet)?;
+        let fill = container.fill.ok_or("the text container has no fill")?;
+        if fill != rgb_of(case.fg, pal) {
+            return Err(format!("default fill is {:?}, the configured default foreground is {:?}", fill, rgb_of(case.fg, pal)));
+        }
+        default_fill = Some(fill);
+        if !text.own_text().trim().is_empty() {
+            return Err(format!("stray text directly inside <text>: {:?}", text.own_text().trim()));
+        }
+        rows.extend(text.elements());
     }
+    let default_fill = default_fill.unwrap();
     // rows grouped by y
-    let rows: Vec<&Element> = text.elements().collect();
     let mut grouped: Vec<(String, Vec<&Element>)> = vec![];
     for r in rows {
         if r.name != "tspan" {
             return Err(format!("unexpected <{}> inside <text>", r.name));
         }
         let y = r.attr("y").ok_or("row tspan without y")?.to_owned();
-        match grouped.last_mut() {
-            Some((ly, v)) if *ly == y => v.push(r),
-            _ => grouped.push((y, vec![r])),
+        match grouped.iter_mut().find(|(ly, _)| *ly == y) {
+            Some((_, v)) => v.push(r),
+            None => grouped.push((y, vec![r])),
         }
     }
+    let ypx = |y: &str| y.trim_end_matches("px").parse::<f64>().unwrap_or(f64::MAX);
+    grouped.sort_by(|a, b| ypx(&a.0).partial_cmp(&ypx(&b.0)).unwrap_or(std::cmp::Ordering::Equal));
     if grouped.len() != lines.len() {
         return Err(format!("{} rows of text in the SVG, the visible text has {} lines", grouped.len(), lines.len()));
     }
